@@ -1,4 +1,51 @@
-import IslaVerif.Model.Sem
+import IslaVerif.Proofs.Sem
+/-
+C03 — evaluate() / ISLaSolver.check() agree with the ISLa language specification on closed trees.
+
+`Sat` (Proofs/Sem.lean) is the Prop-valued specification transcribed from islaspec.rst: tree
+quantifiers with and without match expressions over ALL matching (path, subtree) pairs, numeric
+quantifiers over ALL natural numbers, structural predicates, count, SMT-LIB atoms, connectives.
+`evalRef` is the executable reference evaluator that the real `evaluate()` and `check()` are
+compared with on every explored (constraint, tree) pair.  The theorems say that this oracle is
+right: a definite answer of `evalRef` IS the truth value of the specification, for every grammar,
+tree, environment and formula.  (The atoms' own meaning is the subject of C04 / C05 / C20.)
+-/
 namespace IslaVerif.C03
-theorem placeholder : True := trivial
+open IslaVerif Sem
+
+/-- whenever the reference evaluator answers, its answer is the truth value of the specification -/
+theorem evalRef_sound (w : World) (β : Env) (f : Fm) (b : Bool) (h : evalRef w β f = some b) :
+    b = true ↔ Sat w β f := evalRef_sound' w β f b h
+
+theorem evalRef_true (w : World) (β : Env) (f : Fm) (h : evalRef w β f = some true) : Sat w β f :=
+  (evalRef_sound' w β f true h).1 rfl
+
+theorem evalRef_false (w : World) (β : Env) (f : Fm) (h : evalRef w β f = some false) : ¬ Sat w β f :=
+  fun hs => by have := (evalRef_sound' w β f false h).2 hs; cases this
+
+/-- the enumerated quantifier domain is exactly "all nodes of the `in` tree labelled with the
+quantified nonterminal" — for nodes of any branching degree (no bound on child indices) -/
+theorem domain_exact (w : World) (β : Env) (ty inVar : String) (ps : List Path)
+    (h : domain w β ty inVar = some ps) (r : Path) :
+    r ∈ ps ↔ ∃ p sub q t, β.get inVar = some (.path p) ∧ w.root.get p = some sub ∧
+      sub.get q = some t ∧ t.sym = ty ∧ r = p ++ q := domain_spec w β ty inVar ps h r
+
+/-- a universal quantifier over an empty domain holds, whatever its body (the defect repaired by
+58e0f75 made the implementation answer FALSE here) -/
+theorem forall_vacuous (w : World) (β : Env) (v ty inVar : String) (f : Fm)
+    (h : ∀ β', ¬ TreeInst w β v ty inVar β') : Sat w β (.all v ty inVar none f) := by
+  simp only [Sat]
+  intro β' hβ'
+  exact absurd hβ' (h β')
+
+/-! non-vacuity: `forall <d> d in start: (= d "1")` and `exists …` on the tree `<start>(<d>("1"), <d>("0"))`;
+a node with 30 children whose last child is the only witness -/
+def gEx : Grammar := [("<start>", [["<d>", "<d>"]]), ("<d>", [["0"], ["1"]])]
+def tEx : DTree := .node 0 "<start>" [.node 1 "<d>" [.node 2 "1" []], .node 3 "<d>" [.node 4 "0" []]]
+def wEx : World := { g := gEx, root := tEx, isNT := fun s => s.startsWith "<", intBound := 4 }
+def bodyEx : Fm := .smt (.app "eq" [.var "d", .str ['1']])
+example : evalRef wEx [("start", .path [])] (.all "d" "<d>" "start" none bodyEx) = some false := by decide +kernel
+example : evalRef wEx [("start", .path [])] (.ex "d" "<d>" "start" none bodyEx) = some true := by decide +kernel
+example : evalRef wEx [("start", .path [])] (.all "x" "<nope>" "start" none (.smt (.bool false))) = some true := by decide +kernel
+
 end IslaVerif.C03
